@@ -113,7 +113,17 @@ func (s *sched) switchTo(t, next *task) {
 }
 
 // yield lets other runnable tasks run (round robin after the current one).
-func (s *sched) yield() {
+// yieldAll models sleeping: the other tasks run for as long as any of them can (bounded), then the sleeper goes on.
+func (s *sched) yieldAll() {
+	for k := 0; k < 64; k++ {
+		if !s.yield() {
+			return
+		}
+	}
+}
+
+// yield hands the processor to the next runnable task (cyclic order); it reports whether there was one.
+func (s *sched) yield() bool {
 	t := s.cur
 	// find next runnable task after t in cyclic order
 	n := len(s.tasks)
@@ -130,9 +140,10 @@ func (s *sched) yield() {
 		}
 		if x.ready == nil || x.ready() {
 			s.switchTo(t, x)
-			return
+			return true
 		}
 	}
+	return false
 }
 
 // spawn creates a new task running f; it becomes runnable but does not run yet.
